@@ -43,12 +43,32 @@ Malformed(c) ==
     [] c.shape = "FetchBlob" -> FALSE
     [] OTHER -> FALSE        \* stored blobs: whatever they contain, reading them is answered
 
+-----------------------------------------------------------------------------
+\* Scalars.  Every digest a request carries has a size_bytes, an int64 the client chooses freely.  The ends
+\* of its range are where a handler that uses the number before validating it (to size a buffer, to compute
+\* an offset) fails: per request shape that carries a digest - and per compressor where the shape has one -
+\* the sizes below, next to a well-formed hash.
+SizeExtremes == {"minus1", "minInt64", "maxInt64", "maxInt64minus7", "fiveGiB"}
+DigestShapes == {"FindMissingBlobs", "BatchUpdateBlobs/identity", "BatchUpdateBlobs/zstd",
+                 "BatchReadBlobs/identity", "BatchReadBlobs/zstd", "GetTree", "GetActionResult",
+                 "UpdateActionResult/file", "UpdateActionResult/stdout", "SpliceBlob/blob", "SpliceBlob/chunk",
+                 "ByteStream.Read/blobs", "ByteStream.Read/zstd", "ByteStream.Write/blobs", "ByteStream.Write/zstd",
+                 "QueryWriteStatus", "FetchBlob/checksum", "HttpPut/X-Digest-SizeBytes", "HttpGet/cas"}
+ScalarCases == [shape : DigestShapes, size : SizeExtremes]
+\* a negative size is malformed wherever the size is part of the request's meaning; a huge one is merely the
+\* digest of a blob that cannot exist or be accepted (not found / refused).  Either way: an answer.  (Which
+\* answer is the business of the tables of C10, C16 and C18; for these rows the harness judges only that
+\* there is one, that the process lives and that nothing is held afterwards.)
+ScalarMalformed(c) == c.size \in {"minus1", "minInt64"} /\ c.shape \notin {"GetActionResult", "HttpGet/cas", "FetchBlob/checksum"}
+
 VARIABLE cur
 Init == cur \in Cases
 Next == UNCHANGED cur
 Spec == Init /\ [][Next]_cur
 InvAnswered == cur \in Cases     \* (the policy has no failing branch; TLC counts the lattice)
 
-Row(c) == [shape |-> c.shape, unset |-> SetToSeq(c.unset), malformed |-> Malformed(c)]
-ASSUME "VERIF_CASES_OUT" \in DOMAIN IOEnv => JsonSerialize(IOEnv.VERIF_CASES_OUT, SetToSeq({Row(c) : c \in Cases}))
+Row(c) == [shape |-> c.shape, unset |-> SetToSeq(c.unset), size |-> "", malformed |-> Malformed(c)]
+ScalarRow(c) == [shape |-> c.shape, unset |-> <<>>, size |-> c.size, malformed |-> ScalarMalformed(c)]
+ASSUME "VERIF_CASES_OUT" \in DOMAIN IOEnv =>
+         JsonSerialize(IOEnv.VERIF_CASES_OUT, SetToSeq({Row(c) : c \in Cases}) \o SetToSeq({ScalarRow(c) : c \in ScalarCases}))
 =============================================================================
